@@ -247,8 +247,12 @@ def parse_harness(out):
             cur["score"] = None if w[2] == "none" else int(w[2])
             cur["exit_frame"] = int(w[3])
             cur["hyp"] = w[4]
-        elif w[0] == "X":
-            cur.setdefault("lextree", []).append(" ".join(w[1:]))
+        elif w[0] == "A":
+            cur.setdefault("arcs", []).append((int(w[1]), int(w[2]), int(w[4])))
+        elif w[0] == "W":
+            cur.setdefault("words", {})[int(w[1])] = w[2]
+        elif w[0] == "C":
+            cur.setdefault("phones", {})[int(w[1])] = w[2]
         elif w[0] == "end":
             cur["done"] = True
     return res
@@ -269,7 +273,8 @@ def parse_driver(out):
              "empty": None if d.get("empty", "none") == "none" else int(d["empty"]), "T": int(d["T"]), "states": int(d["states"]),
              "edges": int(d["edges"]), "spread": int(d["spread"]), "beam": int(d["beam"]), "align": d.get("align", "-"),
              "minval": None if d["minval"] == "none" else int(d["minval"])}
-        for k in ("consts", "data", "fillerflags", "closed", "monotone", "skipcons", "agree", "pathok", "labels"):
+        r["lexonly"], r["flatonly"] = d.get("lexonly", "-"), d.get("flatonly", "-")
+        for k in ("consts", "data", "fillerflags", "closed", "monotone", "skipcons", "agree", "pathok", "labels", "lextree"):
             if k in d:
                 r[k] = d[k] == "true"
         res[w[1]] = r
@@ -298,7 +303,36 @@ def run_cases(binp, dictfile, cases, timeout=1200):
     return (rc, parse_harness(out), err), (rc2, parse_driver(mout), merr)
 
 
+def describe_key(h, key):
+    """readable form of an unshared-path key `arcN/lcX/rcY/extA.B/ssid:tmat:entry,...`"""
+    try:
+        f = key.split("/")
+        a = int(f[0][3:])
+        src, dst, wid = h["arcs"][a]
+        ph = h.get("phones", {})
+
+        def name(x):
+            return "any" if x == "*" else ph.get(int(x), x)
+        return (f"word '{h['words'].get(wid, wid)}' on arc {src}->{dst}, left context {name(f[1][2:])}, right context "
+                f"{name(f[2][2:])}: per-phone ssid:tmat:penalty = {f[4]}")
+    except Exception:
+        return key
+
+
 def verdict(case, h, m):
+    """score verdict, then the structural correspondence with the real lextree: a mismatch there is reported as
+    `lextree-mismatch` unless the score already violates the property (then the difference is attached)"""
+    kind, detail = verdict_score(case, h, m)
+    if kind in ("harness-error", "model-error") or m.get("lextree", True):
+        return kind, detail
+    diff = (f"real lextree has [{describe_key(h, m['lexonly'])}]; flat network of the model has "
+            f"[{describe_key(h, m['flatonly'])}]")
+    if kind.startswith("violation"):
+        return kind, f"{detail}; lextree differs from the model: {diff}"
+    return "lextree-mismatch", diff
+
+
+def verdict_score(case, h, m):
     """returns (kind, detail): kind in ok-equal, ok-le, ok-none, harness-error, model-error, violation-*"""
     if h is None or not h.get("done") or h["errors"]:
         return "harness-error", (h or {}).get("errors")
@@ -349,7 +383,10 @@ def shrink(c, binp, dictfile, case, kind):
             return False
         budget[0] -= 1
         (rc, hs, _), (rc2, ms, _) = run_cases(binp, dictfile, [cand])
-        k, _ = verdict(cand, hs.get(cand["id"]), ms.get(cand["id"]))
+        mm = ms.get(cand["id"])
+        k, _ = verdict(cand, hs.get(cand["id"]), mm)
+        if kind == "lextree-mismatch":
+            return bool(mm) and mm.get("lextree") is False
         return k == kind
     cur = dict(case)
     # frames: halve the excerpt from the end while it still fails
@@ -386,13 +423,31 @@ def report(c, binp, dictfile, dic, vocab, case, kind, detail, finding_key=None):
     (rc, hs, err), (rc2, ms, _) = run_cases(binp, dictfile, [small])
     h, m = hs.get(small["id"]), ms.get(small["id"])
     k2, d2 = verdict(small, h, m)
-    if k2 != kind:
+    lex = kind == "lextree-mismatch"
+    if k2 != kind and not (lex and k2.startswith("violation")):
         small, (h, m) = case, (None, None)
         (rc, hs, err), (rc2, ms, _) = run_cases(binp, dictfile, [small])
         h, m = hs.get(small["id"]), ms.get(small["id"])
         k2, d2 = verdict(small, h, m)
+    if lex and not k2.startswith("violation"):
+        # the correspondence broke: look for an input on which the reported score itself is wrong
+        total = (vlib.REPO / LANGS[small.get("lang", "en-us")]["audio"]).stat().st_size // 2
+        tries = []
+        for i in range(10):
+            ns = c.rng.range(20, 120) * 160 + 250
+            tries.append(dict(small, id=f"{small['id']}x{i}", beams="wide", cfg=dict(small["cfg"], beam="0", pbeam="0", wbeam="0"),
+                              audio=["file", LANGS[small.get("lang", "en-us")]["audio"], c.rng.below(max(1, total - ns)), ns]))
+        (rc3, hs3, err3), (_, ms3, _) = run_cases(binp, dictfile, tries)
+        for t in tries:
+            k3, d3 = verdict(t, hs3.get(t["id"]), ms3.get(t["id"]))
+            if k3.startswith("violation"):
+                small, h, m, k2, d2, err = t, hs3.get(t["id"]), ms3.get(t["id"]), k3, d3, err3
+                break
+    if lex:
+        kind = k2 if k2.startswith("violation") else kind
     used = sorted({t[3] for t in small["trans"] if t[3]})
     c.violation({"kind": kind, "what": d2 or detail, "case": small,
+                 "lextree_only": m and m.get("lexonly"), "model_only": m and m.get("flatonly"),
                  "dictionary": {sp: ph for b in used for sp, ph in dic[small.get("lang", "en-us")].get(b, [])},
                  "c_score": h and h["score"], "c_hyp": h and h["hyp"], "c_segments": h and h["segs"],
                  "c_exit_frame": h and h["exit_frame"], "frames": h and h["T"],
@@ -468,6 +523,57 @@ def hmm_ideal(tp, sen, st, out_old):
     return [n0, n1, n2, out]
 
 
+def gen_hmm5_op(rng, stats):
+    tp = [255] * 30
+    for i in range(5):
+        for j in (i, i + 1, i + 2):
+            if j <= 5:
+                tp[i * 6 + j] = rng.range(0, 40) if rng.chance(0.9) else rng.choice([0, 254, 255])
+    if rng.chance(0.1):
+        for k in (6, 12, 13, 18, 24):      # garbage below the diagonal must be ignored
+            tp[k] = rng.range(0, 255)
+    sen = [rng.range(0, 600) if rng.chance(0.85) else rng.choice([0, 32767, rng.range(0, 32767)]) for _ in range(5)]
+
+    def score():
+        k = rng.below(10)
+        if k == 0:
+            return WORST + rng.range(1, 40000)
+        if k == 1:
+            return -rng.range(0, 5)
+        return -rng.range(0, 4000000)
+    if rng.chance(0.7):            # left-to-right activity pattern (what the search produces)
+        na = rng.range(0, 5)
+        st = [score() if k < na else WORST for k in range(5)]
+        out = score() if (na >= 4 and rng.chance(0.7)) else WORST
+    else:                          # arbitrary pattern, stale exit score
+        st = [score() if rng.chance(0.6) else WORST for _ in range(5)]
+        out = WORST if rng.chance(0.5) else score()
+    act = "".join("1" if x != WORST else "0" for x in st)
+    stats["hmm5_active"][act] = stats["hmm5_active"].get(act, 0) + 1
+    return "hmm5 " + " ".join(str(x) for x in tp + sen + st + [out]), (tp, sen, st, out)
+
+
+def hmm5_ideal(tp, sen, st, out_old):
+    """5-state max-plus step; None outside the hypotheses of C02_hmmStep5_eq_ideal"""
+    M = 33023
+    if any(x != WORST and x <= WORST + M for x in st):
+        return None
+    inv = ((st[1] != WORST or st[2] == WORST) and (st[2] != WORST or st[3] == WORST) and
+           (st[3] != WORST or (st[4] == WORST and out_old == WORST)))
+    if not inv:
+        return None
+    a = [None if x == WORST else x - sen[k] for k, x in enumerate(st)]
+
+    def mx(*xs):
+        xs = [x for x in xs if x is not None]
+        return max(xs) if xs else None
+
+    def add(k, j):
+        return None if a[k] is None else a[k] - tp[k * 6 + j]
+    return [add(0, 0), mx(add(1, 1), add(0, 1)), mx(add(2, 2), add(1, 2), add(0, 2)), mx(add(3, 3), add(2, 3), add(1, 3)),
+            mx(add(4, 4), add(3, 4), add(2, 4)), mx(add(4, 5), add(3, 5))]
+
+
 def gen_hist_op(rng, stats):
     pool = [0, 1, 2, 3, 31, 32, 33, 64, 100, 127]
     k = rng.range(1, 8)
@@ -503,6 +609,9 @@ def unit_correspondence(c, stats):
         if i % 4 == 3:
             o, m = gen_hist_op(c.rng, stats)
             meta.append(("hist", m))
+        elif i % 4 == 2:
+            o, m = gen_hmm5_op(c.rng, stats)
+            meta.append(("hmm5", m))
         else:
             o, m = gen_hmm_op(c.rng, stats)
             meta.append(("hmm", m))
@@ -513,7 +622,7 @@ def unit_correspondence(c, stats):
     lo, lm = out.rstrip("\n").split("\n"), mout.rstrip("\n").split("\n")
     ok = rc == 0 and rc2 == 0 and len(lo) == len(ops) and len(lm) == len(ops)
     bad = None
-    ideal_checked = 0
+    ideal_checked = ideal5_checked = 0
     if ok:
         for i, (a, b) in enumerate(zip(lo, lm)):
             kind, m = meta[i]
@@ -525,6 +634,13 @@ def unit_correspondence(c, stats):
                     got = [None if int(x) <= WORST else int(x) for x in a.split()[1:5]]
                     if got != ideal:
                         impl_wrong = f"hmm_vit_eval gives {got}, max-plus step gives {ideal}"
+            elif kind == "hmm5":
+                ideal = hmm5_ideal(*m)
+                if ideal is not None:
+                    ideal5_checked += 1
+                    got = [None if int(x) <= WORST else int(x) for x in a.split()[1:7]]
+                    if got != ideal:
+                        impl_wrong = f"hmm_vit_eval (5-state) gives {got}, max-plus step gives {ideal}"
             else:
                 good, why = hist_lossless(m, a)
                 if not good:
@@ -536,7 +652,7 @@ def unit_correspondence(c, stats):
                 if impl_wrong:          # prefer an op on which the implementation itself breaks the property
                     bad = cand
                     break
-    c.oblige("unit correspondence: real hmm_vit_eval = hmmStep and real fsg_history_entry_add = HistDom.add on every generated op; "
+    c.oblige("unit correspondence: real hmm_vit_eval = hmmStep (3-state) / hmmStep5 (5-state) and real fsg_history_entry_add = HistDom.add on every generated op; "
              "the implementation's outputs satisfy the max-plus / lossless properties directly", ok and bad is None,
              bad or {"rc": rc, "rc2": rc2, "stderr": err[-600:], "lines": [len(lo), len(lm), len(ops)]})
     if bad:
@@ -544,6 +660,7 @@ def unit_correspondence(c, stats):
                     found_input=bool(bad["implementation_violates_property"]), tag="unit")
     stats["unit_ops"] = n
     stats["hmm_ideal_checked"] = ideal_checked
+    stats["hmm5_ideal_checked"] = ideal5_checked
     return ok and bad is None
 
 
@@ -571,7 +688,7 @@ def check(c):
         vocab[lang] = pick_vocab(c.rng, dic[lang], (40 if c.tier == "quick" else 200) if lang == "en-us" else 25, lang)
         dictfile[lang] = c.scratch / f"c02-{lang}.dict"
     stats = {"shapes": {}, "verdicts": {}, "beams": {}, "frames": [], "states": [], "edges": [], "spread_max": 0,
-             "audio": {}, "cfg": {}, "hmm_skip": {}, "hmm_active": {}, "hist_sizes": {}, "langs": {}}
+             "audio": {}, "cfg": {}, "hmm_skip": {}, "hmm_active": {}, "hmm5_active": {}, "hist_sizes": {}, "langs": {}}
     unit_correspondence(c, stats)     # a divergence is recorded; the whole-utterance cases below still look for a failing input
     cases = []
     # corpus first
@@ -597,7 +714,7 @@ def check(c):
             cases.append(gen_case(c.rng, dic["en-us"], vocab["en-us"], f"full{i}", c.tier, beams=("default" if i % 2 else "wide"), frames=278))
     # batches never mix acoustic models
     cases.sort(key=lambda cs: (not cs["id"].startswith("corpus"), cs.get("lang", "en-us") != "en-us"))
-    allok, nontrivial, nviol, nfind = True, set(), 0, 0
+    allok, nontrivial, nviol, nfind, lexok, nlex = True, set(), 0, 0, True, 0
     B = 30
     batches = []
     for cs in cases:
@@ -623,6 +740,9 @@ def check(c):
             nn = sum(1 for t in case["trans"] if not t[3])
             stats["cfg"]["grammars_with_null_arcs"] = stats["cfg"].get("grammars_with_null_arcs", 0) + (1 if nn else 0)
             if m and "error" not in m:
+                stats["lextree_compared"] = stats.get("lextree_compared", 0) + (1 if "lextree" in m else 0)
+                if m.get("lextree") is False and kind != "lextree-mismatch":
+                    lexok = False
                 stats["frames"].append(m["T"]); stats["states"].append(m["states"]); stats["edges"].append(m["edges"])
                 stats["spread_max"] = max(stats["spread_max"], m["spread"])
             if kind in ("ok-equal", "ok-le") and m["opt"] is not None:
@@ -632,6 +752,12 @@ def check(c):
                                   "cfg": case["cfg"], "c_score": h["score"], "optimum": m["opt"], "verdict": kind,
                                   "alignment": m["align"]})
             if kind.startswith("ok"):
+                continue
+            if kind == "lextree-mismatch":
+                lexok = False
+                if nlex < 1:
+                    report(c, binp, dictfile, dic, vocab, case, kind, detail)
+                nlex += 1
                 continue
             if kind == "finding-partial":
                 if not is_known(KEY_PARTIAL):
@@ -652,6 +778,9 @@ def check(c):
                 nviol += 1
         if nviol >= 3:
             break
+    c.oblige("structural correspondence: the unshared root-to-leaf paths of the real lextree (arc, left/right context, presented "
+             "phones, per-phone ssid / tmat / entry penalty) = the HMM instances of the model's flat network, on every case",
+             lexok, {"cases_compared": stats.get("lextree_compared", 0), "mismatching_cases": nlex})
     c.oblige("oracle on the implementation: reported score = model optimum in the no-pruning regime, <= optimum otherwise, "
              "on every corpus and generated case", allok, stats["verdicts"])
 
@@ -664,10 +793,13 @@ def check(c):
                   "corpus_cases": ncorp, "verdicts": stats["verdicts"], "grammar_shapes": stats["shapes"], "beams": stats["beams"],
                   "audio_kinds": stats["audio"], "config_values": stats["cfg"], "frames": hist(stats["frames"]), "network_states": hist(stats["states"]),
                   "network_edges": hist(stats["edges"]), "max_score_spread_vs_beam": [stats["spread_max"], 524288],
+                  "lextree_structures_compared": stats.get("lextree_compared", 0),
                   "vocabulary_size": {k: len(v) for k, v in vocab.items()}, "acoustic_models": stats["langs"],
                   "unit_ops": stats.get("unit_ops"), "hmm_ops_also_checked_against_max_plus": stats.get("hmm_ideal_checked"),
                   "hmm_skip_flags_(0->2,1->3)": {str(k): v for k, v in stats["hmm_skip"].items()},
                   "hmm_active_states_(0,1,2)": {str(k): v for k, v in stats["hmm_active"].items()},
+                  "hmm5_ops_also_checked_against_max_plus": stats.get("hmm5_ideal_checked"),
+                  "hmm5_active_states_(0..4)": stats["hmm5_active"],
                   "hist_list_lengths": {str(k): v for k, v in stats["hist_sizes"].items()},
                   "model_branches_not_hit_by_whole_utterance_cases": [
                       "skip transitions 0->2 / 1->3 of hmmStep and hmmEdges (the shipped transition matrices have none; "
